@@ -12,7 +12,7 @@ from ..rt import *
 from ..values import *
 from spec import cdb as refcdb
 
-SHARED_KINDS = ("class-store", "global-store", "static-mutation", "memo-store")
+SHARED_KINDS = ("class-store", "global-store", "static-mutation", "memo-store", "closure-store")
 
 
 def sym_arg(I, name):
@@ -31,6 +31,8 @@ def effect_key(e):
         return "store global %s.%s" % (e["module"], e["name"])
     if e["kind"] == "static-mutation":
         return "mutation of %s" % (e.get("origin"),)
+    if e["kind"] == "closure-store":
+        return "store nonlocal %s of %s (a closure made at import time: one variable for every command)" % (e.get("name"), e.get("func"))
     if e["kind"] == "shared-object-store":
         return "store %s.%s on the %s object created at import time" % (e["cls"].split(":")[1], e["name"], e["cls"].split(":")[1])
     if e["kind"] == "memo-store":
